@@ -661,7 +661,8 @@ Definition combined_for (h : Z) (all : list sext) (app : Z) (recs : list srec) :
 
 (* finalDailyRewards of one entry: share = NewDec(eligible.Int64()).Quo(NewDecFromInt(totalMinted)),
    epochRewards = NewDec(available.Int64()).Quo(NewDec(daysLeft)), share.Mul(epochRewards).TruncateInt().
-   The share is rounded to 18 decimals before it is multiplied (the pattern of the former C19-F3). *)
+   The share is rounded to 18 decimals before it is multiplied (the pattern of the former C19-F3); here
+   that cannot overdraw because every entry is paid out of what the entries before it left. *)
 Definition stable_final (avail dleft total elig : Z) : outcome Z :=
   match int64_c elig, int64_c avail with
   | Some e, Some a =>
@@ -670,8 +671,12 @@ Definition stable_final (avail dleft total elig : Z) : outcome Z :=
   | _, _ => Panic
   end.
 
-(* eligibleRewardAmt: the entry's amount, or the user's holdings when they are smaller *)
-Definition stable_elig (total : Z) (r : srec) : Z := if sr_amount r <=? sr_hold r then sr_amount r else sr_hold r.
+(* eligibleRewardAmt: the entry's amount, or the user's holdings when they are smaller - and never more
+   than the total minted (fix C19-F5: redemptions by OTHER holders lower the total but not this entry,
+   and the share eligible / total was then more than the whole) *)
+Definition stable_elig (total : Z) (r : srec) : Z :=
+  let e := if sr_amount r <=? sr_hold r then sr_amount r else sr_hold r in
+  if total <? e then total else e.
 
 (* the loop over the entries of the program's app.  AvailableRewards is lowered and stored entry by entry,
    and the NEXT entry's epoch rewards are computed from the lowered amount; a send that the module account
@@ -780,4 +785,13 @@ Definition op_wf2 (o : gop2) : bool :=
   | Base o' => op_wf o'
   | SCreate _ _ _ _ _ _ _ _ => true
   | Begin2 now e h se => op_wf (Begin now e) && forallb senv_wf se
+  end.
+
+(* the known-finding class C19-F4 (lend programs) lifted to the extended histories *)
+Definition kf_step2 (s : rstate2) (o : gop2) : bool :=
+  match o with Begin2 now e _ _ => kf4_begin now e (r2_base s) | _ => false end.
+Fixpoint run_clean2 (s : rstate2) (ops : list gop2) : bool :=
+  match ops with
+  | [] => true
+  | o :: rest => negb (kf_step2 s o) && run_clean2 (rapply2 s o) rest
   end.
